@@ -1,5 +1,6 @@
 """Registry of executable oracles (see harness.py)."""
 ORACLES = {}
+ALIASES = {}
 
 
 def oracle(qualname):
@@ -7,3 +8,8 @@ def oracle(qualname):
         ORACLES[qualname] = cls()
         return cls
     return deco
+
+
+def alias(internal, entry_point):
+    """an internal function without an oracle of its own is searched through the entry point that runs it"""
+    ALIASES[internal] = entry_point
